@@ -92,8 +92,9 @@ enum Edit {
     SetExisting { name: String, sub: Option<Vec<u8>>, key: String, value: Vec<u8> },
     SetExistingMulti { name: String, sub: Option<Vec<u8>>, key: String, values: Vec<Vec<u8>> },
     NewSection { name: String, sub: Option<Vec<u8>>, push: Option<(String, Option<Vec<u8>>)> },
-    RemoveSection { name: String, sub: Option<Vec<u8>>, filter: bool },
-    RenameSection { name: String, sub: Option<Vec<u8>>, new_name: String, new_sub: Option<Vec<u8>> },
+    /// `reload`: serialize and load again right after the call (steps around the known stale-lookup defects)
+    RemoveSection { name: String, sub: Option<Vec<u8>>, filter: bool, reload: bool },
+    RenameSection { name: String, sub: Option<Vec<u8>>, new_name: String, new_sub: Option<Vec<u8>>, reload: bool },
     /// serialize and load again (what an application does between runs); resets all lookup caches
     Reload,
 }
@@ -138,7 +139,12 @@ fn value_needs_escapes(v: &[u8]) -> bool {
 /// pick a section address: mostly an existing one (any case), sometimes one that does not exist
 fn gen_target(t: &mut Tape, m: &Model) -> (String, Option<Vec<u8>>) {
     if !m.secs.is_empty() && !t.chance(40) {
-        let s = &m.secs[t.below(m.secs.len())];
+        // a quarter of the time aim at a section address that occurs more than once, if there is one
+        let dups: Vec<usize> = (0..m.secs.len())
+            .filter(|&i| m.secs.iter().filter(|o| eq_name(&o.name, &m.secs[i].name) && o.sub == m.secs[i].sub).count() >= 2)
+            .collect();
+        let idx = if t.chance(64) && !dups.is_empty() { dups[t.below(dups.len())] } else { t.below(m.secs.len()) };
+        let s = &m.secs[idx];
         let mut name = String::from_utf8_lossy(&s.name).to_string();
         if t.chance(64) {
             name = if name.chars().any(|c| c.is_ascii_lowercase()) { name.to_ascii_uppercase() } else { name.to_ascii_lowercase() };
@@ -206,14 +212,14 @@ fn gen_edit(t: &mut Tape, m: &Model) -> Edit {
             let push = if t.bool() { Some((key, if t.chance(40) { None } else { Some(gen_value(t)) })) } else { None };
             Edit::NewSection { name, sub, push }
         }
-        13 => Edit::RemoveSection { name, sub, filter: t.chance(64) },
+        13 => Edit::RemoveSection { name, sub, filter: t.chance(64), reload: t.chance(176) },
         14 => {
             let new_name = t.pick(SECTION_NAMES).to_string();
             let new_sub = match t.weighted(&[3, 3]) {
                 0 => None,
                 _ => Some(t.pick(SUBSECTIONS).to_vec()),
             };
-            Edit::RenameSection { name, sub, new_name, new_sub }
+            Edit::RenameSection { name, sub, new_name, new_sub, reload: t.chance(176) }
         }
         _ => Edit::Reload,
     }
@@ -371,7 +377,7 @@ fn apply_model(m: &mut Model, edit: &Edit) -> Outcome {
             }
             None => miss = true,
         },
-        Edit::RenameSection { name, sub, new_name, new_sub } => match m.find_last(name.as_bytes(), sub.as_deref()) {
+        Edit::RenameSection { name, sub, new_name, new_sub, .. } => match m.find_last(name.as_bytes(), sub.as_deref()) {
             Some(si) => {
                 m.touch(si);
                 m.secs[si].name = new_name.as_bytes().to_vec();
@@ -472,16 +478,28 @@ fn apply_file(file: &mut gix_config::File<'static>, edit: &Edit) -> Result<bool,
             }
             false
         }
-        Edit::RemoveSection { name, sub, filter } => {
-            if *filter {
+        Edit::RemoveSection { name, sub, filter, reload } => {
+            let miss = if *filter {
                 file.remove_section_filter(name.as_str(), bsub(sub), &mut |_| true).is_none()
             } else {
                 file.remove_section(name.as_str(), bsub(sub)).is_none()
+            };
+            if *reload {
+                let text = file.to_bstring();
+                *file = load_file(&text).map_err(|e| format!("reload failed: {e}"))?;
             }
+            miss
         }
-        Edit::RenameSection { name, sub, new_name, new_sub } => file
-            .rename_section(name.as_str(), bsub(sub), new_name.clone(), new_sub.clone().map(|s| Cow::Owned(s.into())))
-            .is_err(),
+        Edit::RenameSection { name, sub, new_name, new_sub, reload } => {
+            let miss = file
+                .rename_section(name.as_str(), bsub(sub), new_name.clone(), new_sub.clone().map(|s| Cow::Owned(s.into())))
+                .is_err();
+            if *reload {
+                let text = file.to_bstring();
+                *file = load_file(&text).map_err(|e| format!("reload failed: {e}"))?;
+            }
+            miss
+        }
         Edit::Reload => {
             let text = file.to_bstring();
             *file = load_file(&text).map_err(|e| format!("reload failed: {e}"))?;
@@ -515,6 +533,7 @@ fn safe_opts() -> Opts {
         gix_only: false,
         cont_at_eof: false,
         cont_leading_ws: false,
+        implicit_trailing_ws: true,
         max_sections: 5,
         max_entries: 4,
         ..Opts::everything()
@@ -538,7 +557,7 @@ pub fn main() {
 
     ck.sub(
         "history",
-        SubCfg::new(1_200, 30_000).max_len(2200).max_shrink(150).max_discard_pct(30),
+        SubCfg::new(3_000, 45_000).max_len(2200).max_shrink(150).max_discard_pct(30),
         move |t, c| {
             let doc = gen_doc(t, safe_opts());
             // Everything is relative to the unedited File's own serialization (File::to_bstring() may add newlines,
@@ -620,6 +639,8 @@ pub fn main() {
             let mut renamed: HashSet<(Vec<u8>, Option<Vec<u8>>)> = HashSet::new();
             let mut removed_with_filter: HashSet<Vec<u8>> = HashSet::new();
             let mut removed: HashSet<(Vec<u8>, Option<Vec<u8>>)> = HashSet::new();
+            // every name that was ever the source or target of a rename (for the non-trivial rule)
+            let mut renamed_any: HashSet<(Vec<u8>, Option<Vec<u8>>)> = HashSet::new();
             let mut f = Findings::default();
             for step in 0..nedits {
                 // per step: the effect of these known defects shows in the checks of the same step
@@ -650,8 +671,9 @@ pub fn main() {
                         stale_rename = true;
                         nontrivial = true;
                     }
-                    if removed.contains(&addr) {
+                    if removed.contains(&addr) || renamed_any.contains(&addr) {
                         nontrivial = true;
+                        c.label("follows-rename-or-remove-of-same-section");
                     }
                     if let Some(k) = tkey {
                         let pos = model.positions(n.as_bytes(), s.as_deref(), k.as_bytes());
@@ -699,6 +721,25 @@ pub fn main() {
                     Edit::Reload => "reload",
                 });
 
+                // appending to a section whose body ends in a comment without a newline (`[a] ;c<EOF>`): the new key lands
+                // on the comment's line
+                let mut push_after_comment = false;
+                if let (Edit::SetRawValue { name, sub, .. } | Edit::SectionPush { name, sub, .. } | Edit::SectionSet { name, sub, .. }, true) = (&edit, true) {
+                    if let Some(si) = model.find_last(name.as_bytes(), sub.as_deref()) {
+                        if let Some(sec) = file.sections().nth(si) {
+                            let bytes = sec.to_bstring();
+                            let parsed = Events::from_bytes(&bytes, None);
+                            if let Ok(ev) = &parsed {
+                                if let Some(last) = ev.sections.last() {
+                                    let tail = last.events.iter().rev().find(|e| !matches!(e, gix_config::parse::Event::Whitespace(_)));
+                                    push_after_comment = matches!(tail, Some(gix_config::parse::Event::Comment(_)));
+                                }
+                            }
+                            drop(parsed);
+                        }
+                    }
+                }
+                c.label_if(push_after_comment, "append-after-unterminated-comment");
                 let before = Model { secs: model.secs.clone() };
                 let outcome = apply_model(&mut model, &edit);
                 let api_miss = match apply_file(&mut file, &edit) {
@@ -712,14 +753,23 @@ pub fn main() {
                     }
                 };
                 match &edit {
-                    Edit::RenameSection { name, sub, new_name, new_sub } if !outcome.expect_miss => {
-                        renamed.insert((name.to_ascii_lowercase().into_bytes(), sub.clone()));
-                        renamed.insert((new_name.to_ascii_lowercase().into_bytes(), new_sub.clone()));
-                        c.label("renamed");
+                    Edit::RenameSection { name, sub, new_name, new_sub, reload } if !outcome.expect_miss => {
+                        if *reload {
+                            renamed.clear();
+                            c.label("renamed-and-reloaded");
+                        } else {
+                            renamed.insert((name.to_ascii_lowercase().into_bytes(), sub.clone()));
+                            renamed.insert((new_name.to_ascii_lowercase().into_bytes(), new_sub.clone()));
+                            c.label("renamed");
+                        }
+                        renamed_any.insert((name.to_ascii_lowercase().into_bytes(), sub.clone()));
+                        renamed_any.insert((new_name.to_ascii_lowercase().into_bytes(), new_sub.clone()));
                     }
-                    Edit::RemoveSection { name, sub, filter } if !outcome.expect_miss => {
+                    Edit::RemoveSection { name, sub, filter, reload } if !outcome.expect_miss => {
                         removed.insert((name.to_ascii_lowercase().into_bytes(), sub.clone()));
-                        if *filter {
+                        if *reload {
+                            renamed.clear();
+                        } else if *filter {
                             removed_with_filter.insert(name.to_ascii_lowercase().into_bytes());
                         }
                     }
@@ -731,7 +781,7 @@ pub fn main() {
                 }
                 // remove_section_filter() leaves the removed id in the lookup tree: the next lookup of that name panics
                 // ("known section id") at whichever accessor comes first. Detect the class right here, once.
-                if let Edit::RemoveSection { name, sub, filter: true } = &edit {
+                if let Edit::RemoveSection { name, sub, filter: true, reload: false } = &edit {
                     if !outcome.expect_miss && !api_miss {
                         let probe = std::panic::catch_unwind(std::panic::AssertUnwindSafe(|| {
                             let _ = file.raw_values_by(name.as_str(), bsub(sub), "k");
@@ -746,7 +796,7 @@ pub fn main() {
                     }
                 }
                 // remove_section() leaves an empty id list behind; section_mut()/rename_section() `expect()` a non-empty one
-                if let Edit::RemoveSection { name, sub, .. } = &edit {
+                if let Edit::RemoveSection { name, sub, reload: false, .. } = &edit {
                     if !outcome.expect_miss && !api_miss && !model.exists(name.as_bytes(), sub.as_deref()) {
                         let probe = std::panic::catch_unwind(std::panic::AssertUnwindSafe(|| {
                             let a = file.section_mut(name.as_str(), bsub(sub)).is_err();
@@ -774,6 +824,8 @@ pub fn main() {
                         "rename-section-stale-lookup"
                     } else if set_on_implicit {
                         "set-on-implicit-key"
+                    } else if push_after_comment {
+                        "push-after-unterminated-comment"
                     } else {
                         generic
                     }
@@ -882,14 +934,20 @@ pub fn main() {
                     .collect();
                 for (i, s) in model.secs.iter().enumerate() {
                     if let Some(o) = s.origin {
-                        if now_chunks[i] != base_chunks[o] {
+                        // The writer decides about line breaks between sections from the newline style it detects in the
+                        // whole file (first newline event), which an edit elsewhere can flip in files with mixed LF/CRLF:
+                        // an untouched section may gain a line break at its end. Everything else must be identical.
+                        let trim = |b: &[u8]| -> Vec<u8> { b.trim_end_with(|c| c == '\r' || c == '\n').to_vec() };
+                        if trim(&now_chunks[i]) != trim(&base_chunks[o]) {
                             f.add(
                                 sig_for("untouched-section-changed"),
                                 format!("step {step}: section #{o} of the input was not edited but serializes as {} instead of {}\n{}", show(&now_chunks[i]), show(&base_chunks[o]), describe(&doc.text, &edits)),
                             );
                         }
                     }
-                    if now[i].comments != s.comments {
+                    // a comment before a CRLF keeps the CR in its text; whether the last line has a newline is up to the writer
+                    let strip = |c: &Vec<Vec<u8>>| -> Vec<Vec<u8>> { c.iter().map(|c| c.strip_suffix(b"\r").unwrap_or(c).to_vec()).collect() };
+                    if strip(&now[i].comments) != strip(&s.comments) {
                         f.add(
                             sig_for("comment-lost"),
                             format!("step {step}: comments of section {} changed from {:?} to {:?}\nserialized: {}\n{}", i, s.comments.iter().map(|c| show(c)).collect::<Vec<_>>(), now[i].comments.iter().map(|c| show(c)).collect::<Vec<_>>(), show(&text), describe(&doc.text, &edits)),
